@@ -66,9 +66,13 @@ fn frags(rng: &mut Rng, t: usize, c: usize) -> Vec<String> {
     v
 }
 
+/// Scenario seeds from here on are the first-touch race only (a tiny program, so the driver can
+/// afford many schedules of it: the window exists once per process).
+const FIRST_TOUCH_BASE: u64 = 10_000_000;
+
 fn generate(scen_seed: u64) -> Scenario {
     let mut rng = Rng::new(run_seed(0xC19, 0x3141, scen_seed));
-    if rng.chance(1, 8) {
+    if scen_seed >= FIRST_TOUCH_BASE || rng.chance(1, 8) {
         return Scenario { pass: false, register: false, first_touch: true, threads: vec![] };
     }
     let nthreads = rng.range(2, 4);
@@ -224,10 +228,30 @@ fn register_stress(bad: &std::sync::Mutex<Vec<String>>, rounds: usize) {
 }
 
 fn first_touch_race() -> i32 {
-    let w = std::thread::spawn(|| ColorChoice::Never.write_global());
-    let r = std::thread::spawn(|| code_of(ColorChoice::global()));
+    // one writer and three first readers, released together
+    let barrier = std::sync::Arc::new(std::sync::Barrier::new(4));
+    let b = barrier.clone();
+    let w = std::thread::spawn(move || {
+        b.wait();
+        ColorChoice::Never.write_global()
+    });
+    let readers: Vec<_> = (0..3)
+        .map(|_| {
+            let b = barrier.clone();
+            std::thread::spawn(move || {
+                b.wait();
+                code_of(ColorChoice::global())
+            })
+        })
+        .collect();
     w.join().unwrap();
-    let seen = r.join().unwrap();
+    let mut seen = 0u8;
+    for r in readers {
+        let v = r.join().unwrap();
+        if v != 0 && v != 3 {
+            seen = v;
+        }
+    }
     let fin = ColorChoice::global();
     let mut bad = Vec::new();
     if seen != 0 && seen != 3 {
@@ -569,13 +593,19 @@ fn drive(seed: u64, first: u64, count: u64, report: &str) -> i32 {
         for _ in 0..workers {
             s.spawn(|| loop {
                 let i = next.fetch_add(1, std::sync::atomic::Ordering::Relaxed);
-                if i >= count {
+                // `count` print scenarios, then 2 x count schedules of the (tiny) first-touch race: its window
+                // exists once per process, so it needs many processes
+                if i >= count + 2 * count {
                     break;
                 }
                 let idx = first + i;
                 let miri_seed = splitmix64(seed ^ idx.wrapping_mul(0x9E37)) % (1 << 31);
                 let rate = RATES[(idx % RATES.len() as u64) as usize];
-                let scen_seed = splitmix64(seed.wrapping_add(idx / 4)) % 1_000_000; // 4 schedules per scenario
+                let scen_seed = if i >= count {
+                    FIRST_TOUCH_BASE + idx
+                } else {
+                    splitmix64(seed.wrapping_add(idx / 4)) % 1_000_000 // 4 schedules per scenario
+                };
                 let sc = generate(scen_seed);
                 let r = miri_run(miri_seed, rate, scen_seed);
                 let verdict = match &r {
